@@ -166,13 +166,13 @@ Definition px_of_bytes (bypp : Z) (bs : list Z) : list Z := map le_val (chunks b
 Definition rd_zblock : M (Z * bool * bool * list Z) := fun s ts =>
   match ts with
   | [] => More
-  | TZ sid fresh ok data :: r => Ok (sid, fresh, ok, data) s r
+  | TZ sid fresh ok data :: r => Ok (sid, fresh, ok, map (fun b => b mod 256) data) s r
   | _ :: _ => Desync
   end.
 Definition rd_lblock : M (list Z) := fun s ts =>
   match ts with
   | [] => More
-  | TL data :: r => Ok data s r
+  | TL data :: r => Ok (map (fun b => b mod 256) data) s r
   | _ :: _ => Desync
   end.
 
